@@ -75,8 +75,64 @@ def ret_nodes(fi):
     return fi.cfg.stmt_nodes(lambda n: n.kind == "stmt" and isinstance(n.ast, ast.Return))
 
 
+class _ValueSite:
+    """Stands for ``return <value>`` at the CFG node where a single-exit result variable receives that value."""
+
+    __slots__ = ("id", "kind", "ast", "suspends", "label")
+
+    def __init__(self, node, value):
+        self.id = node.id
+        self.kind = "stmt"
+        self.ast = ast.copy_location(ast.Return(value=value), node.ast)
+        ast.fix_missing_locations(self.ast)
+        self.suspends = False
+        self.label = " result"
+
+    @property
+    def lineno(self):
+        return getattr(self.ast, "lineno", 0)
+
+
+def _straight_to(cfg, a_id, b_id):
+    """No branch lies between node a and node b (every node on a path a -> b other than b is not a test)."""
+    fwd, st = {a_id}, [a_id]
+    while st:
+        x = st.pop()
+        for y, k in cfg.succ[x]:
+            if y not in fwd and k != "exc":
+                fwd.add(y)
+                st.append(y)
+    back, st = {b_id}, [b_id]
+    while st:
+        x = st.pop()
+        for y, k in cfg.pred[x]:
+            if y not in back:
+                back.add(y)
+                st.append(y)
+    return b_id in fwd and not any(cfg.nodes[i].kind in ("test", "for") for i in (fwd & back) - {a_id, b_id})
+
+
 def nonnull_returns(fi):
-    return [n for n in ret_nodes(fi) if n.ast.value is not None and not (isinstance(n.ast.value, ast.Constant) and n.ast.value.value is None)]
+    """Return nodes that return a value.  For the single-exit style (``result = None`` ... ``result = decode(x)`` ...
+    ``return result``) the sites are the assignments of a non-None value to the result variable, provided nothing
+    is tested between the assignment and the return (otherwise the plain return is kept and the rules see the
+    merged variable, which they refuse to judge)."""
+    out = []
+    rd = None
+    for n in ret_nodes(fi):
+        v = n.ast.value
+        if v is None or (isinstance(v, ast.Constant) and v.value is None):
+            continue
+        if isinstance(v, ast.Name) and v.id not in fi.params():
+            rd = rd or Reach(fi)
+            ds = rd.defs_at(n, v.id)
+            if len(ds) > 1 and all(d.kind == "assign" and d.value is not None and d.node is not None for d in ds) and all(_straight_to(fi.cfg, d.node.id, n.id) for d in ds if not (isinstance(d.value, ast.Constant) and d.value.value is None)):
+                for d in ds:
+                    if not (isinstance(d.value, ast.Constant) and d.value.value is None):
+                        out.append(_ValueSite(d.node, d.value))
+                continue
+        out.append(n)
+    return out
 
 
 def _is_func_call(e):
@@ -306,6 +362,9 @@ def check_mac_gate(ck, cx: Ctx):
     ck.floor("C23.mac-gate", len(rets), 1, "value-returning returns in %s" % fi.qualname)
     macs = []
     for r in rets:
+        rv = cx.rd.expand(r.ast.value, r)
+        if isinstance(rv, ast.Name) and "@" in rv.id:
+            raise AnalysisError("%s: returns the merged variable %s; the rule cannot tell which value it holds on which path" % (fi.qualname, rv.id))
         m = mac_fact(cx, r)
         weak = None
         if m is None:
